@@ -36,6 +36,48 @@ theorem restrict_in_bounds (ts st en : Array Int) (hm : st.size = en.size) :
     (∀ a ∈ jitrestrict ts st en hm, a < ts.size) ∧ (jitrestrict ts st en hm).size ≤ ts.size :=
   ⟨(jitrestrict_inc ts st en hm).2, jitrestrict_size_le ts st en hm⟩
 
+/-! ## the with-count kernel (behind count, bin_average, value_from, perievent) selects the same samples -/
+
+theorem insideC_proj (ts : Array Int) (e : Int) (k t : Nat) (acc cnt : Array Nat) :
+    (insideC ts e k t acc cnt).1 = (inside ts e t acc).1 ∧
+    (insideC ts e k t acc cnt).2.1 = (inside ts e t acc).2.1 ∧
+    (insideC ts e k t acc cnt).2.2.1 = (inside ts e t acc).2.2 := by
+  fun_induction insideC ts e k t acc cnt with
+  | case1 t acc cnt h hgt => unfold inside; simp [h, hgt]
+  | case2 t acc cnt h hle ih =>
+    unfold inside
+    simp only [dif_pos h, hle, if_false]
+    exact ih
+  | case3 t acc cnt h => unfold inside; simp [h]
+
+theorem outerC_proj (ts st en : Array Int) (hm : st.size = en.size) (k t : Nat) (acc cnt : Array Nat) :
+    (outerC ts st en hm k t acc cnt).1 = outer ts st en hm k t acc := by
+  fun_induction outerC ts st en hm k t acc cnt with
+  | case1 k t acc cnt hk t1 r htrue ih =>
+    obtain ⟨p1, p2, p3⟩ := insideC_proj ts (en[k]'(hm ▸ hk)) k t1 acc cnt
+    unfold outer
+    simp only [dif_pos hk]
+    have h2 : (inside ts (en[k]'(hm ▸ hk)) (outside ts st[k] t) acc).2.1 = true := by rw [← p2]; exact htrue
+    simp only [h2, if_true]
+    rw [ih, ← p1, ← p3]
+  | case2 k t acc cnt hk t1 r hfalse =>
+    obtain ⟨p1, p2, p3⟩ := insideC_proj ts (en[k]'(hm ▸ hk)) k t1 acc cnt
+    unfold outer
+    simp only [dif_pos hk]
+    have h2 : ¬ (inside ts (en[k]'(hm ▸ hk)) (outside ts st[k] t) acc).2.1 = true := by rw [← p2]; exact hfalse
+    simp only [h2, if_false]
+    exact p3
+  | case3 k t acc cnt hk => unfold outer; simp [hk]
+
+/-- **`jitrestrict_with_count` selects exactly what `jitrestrict` selects** (same index vector, for
+ANY input): every statement about `restrict` — selection, order, bounds — holds for the kernel behind
+`count`, `bin_average`, `value_from` and the peri-event functions as well -/
+theorem restrictCount_selects_like_restrict (ts st en : Array Int) (hm : st.size = en.size) :
+    (jitrestrictCount ts st en hm).1 = jitrestrict ts st en hm := by
+  unfold jitrestrictCount jitrestrict
+  exact outerC_proj ts st en hm _ 0 #[] _
+
+
 /-- non-vacuity: a concrete series and a concrete canonical set meet the hypotheses, and the
 kernel keeps samples on both interval ends, drops the one between the epochs -/
 example : jitrestrict #[0, 1, 1, 2, 5, 6, 10] #[1, 6] #[2, 9] rfl = #[1, 2, 3, 5] := by decide +kernel
